@@ -19,7 +19,7 @@
                                                                  series_at, series_during
      Epochs.__init__ 1370-1467, start/stop/duration 1470-1485, __getitem__/iteration 1487-1493
                                                               -> epochs_ctor, ep_start, ep_stop,
-                                                                 e_durations, epoch_list
+                                                                 e_durations, epoch_list, epochs_getitem
      Events.__getitem__ 1631-1652                             -> events_get
    Definitions only; proofs are in Proofs/IndexP.v.
 
@@ -229,6 +229,27 @@ Definition e_durations (e : epochs) : res tarr := binop_arith Sub (ep_stop e) (O
 Definition epoch_list (e : epochs) : list epochs :=
   map (fun p => mk_epochs [fst p] [snd p] true (e_offset e) (e_unit e)) (combine (e_start e) (e_stop e)).
 
+(* Epochs.__getitem__: `static = self.__dict__.copy(); static['data'] = self.data[key]` — the
+   selection keeps the offset and the unit of the object; self.data[key] is numpy indexing of the
+   1-d structured array (an integer gives a scalar epoch, a slice / list / boolean mask a 1-d one);
+   any index into a 0-d epoch is an IndexError *)
+Inductive ekidx := EInt (k : Z) | ESlice (lo hi : option Z) | EList (l : list Z) | EMask (m : list bool).
+
+Definition epochs_getitem (e : epochs) (k : ekidx) : xres epochs :=
+  let keep st sp sc := XOk (mk_epochs st sp sc (e_offset e) (e_unit e)) in
+  if e_scalar e then XErr XIndex else
+  match k with
+  | EInt z => do s <- getz (e_start e) z; do p <- getz (e_stop e) z; keep [s] [p] true
+  | ESlice lo hi =>
+      let a := match lo with None => 0 | Some x => x end in
+      let b := match hi with None => Z.of_nat (length (e_start e)) | Some x => x end in
+      keep (pyslice a b (e_start e)) (pyslice a b (e_stop e)) false
+  | EList l => do s <- gatherz (e_start e) l; do p <- gatherz (e_stop e) l; keep s p false
+  | EMask m =>
+      if negb (Nat.eqb (length m) (length (e_start e))) then XErr XIndex else
+      do s <- gather (e_start e) (np_where m); do p <- gather (e_stop e) (np_where m); keep s p false
+  end.
+
 (* ---------------------------------------------------------------- TimeArray.slice_during / at / during *)
 Definition scalar_bounds (e : epochs) : xres (Z * Z) :=
   if negb (e_scalar e) then XErr XNotImpl else
@@ -403,7 +424,8 @@ Definition series_during {A} (s : series A) (e : epochs) : xres (during_out A) :
   else
     do dur <- of_res (e_durations e);
     match payload dur with
-    | [] => XErr XIndex
+    | [] => XErr XOther     (* an empty epoch array: e.stop / e.start build a TimeArray from an empty
+                               array, StopIteration in get_time_unit (C01's constructor) *)
     | _ =>
       if negb (all_equal (payload dur)) then XErr XValue else
       do rows <- xall (map (fun ep => do sl <- uslice_during ax ep;
